@@ -351,17 +351,20 @@ class HttpWebServerPlugin(HttpProtocolHandlerPlugin):
             request_id=self.uid,
             event_name=eventNames.REQUEST_COMPLETE,
             event_payload={
+                # Octets outside UTF-8 (e.g. latin-1 header values) are valid
+                # in HTTP, reporting them must not fail the request.
                 'url': 'http://%s%s'
                 % (
-                    text_(self.request.header(b'host')),
-                    text_(self.request.path),
+                    text_(self.request.header(b'host'), errors='backslashreplace'),
+                    text_(self.request.path, errors='backslashreplace'),
                 ),
-                'method': text_(self.request.method),
+                'method': text_(self.request.method, errors='backslashreplace'),
                 'headers': (
                     {}
                     if not self.request.headers
                     else {
-                        text_(k): text_(v[1]) for k, v in self.request.headers.items()
+                        text_(k, errors='backslashreplace'): text_(v[1], errors='backslashreplace')
+                        for k, v in self.request.headers.items()
                     }
                 ),
                 'body': (
